@@ -196,9 +196,31 @@ def plan(tier, seed):
     return [{"n": 10000, "grid": True} for _ in range(16)]
 
 
+TWINS = {"1": [True, 1.0, "1"], "0": [False, 0.0, -0.0, "0", None], "True": [1, 1.0, "true"], "False": [0, 0.0, "false", None],
+         "None": [0, False, "", "null"], "''": [None, 0, False]}
+
+
+def twin_leaf(r, v):
+    """v with exactly one leaf replaced by a look-alike of another type (1 / true / 1.0, 0 / false / null, ...)."""
+    import copy
+    if isinstance(v, list) and v:
+        i = r.randrange(len(v))
+        return v[:i] + [twin_leaf(r, v[i])] + v[i + 1:]
+    if isinstance(v, dict) and v:
+        key = r.choice(list(v))
+        return {kk: (twin_leaf(r, x) if kk == key else copy.deepcopy(x)) for kk, x in v.items()}
+    if isinstance(v, float) and not isinstance(v, bool) and v in (0.0, 1.0):
+        return r.choice(TWINS[repr(int(v))])
+    if repr(v) in TWINS:
+        return r.choice(TWINS[repr(v)])
+    return v
+
+
 def related(r, v):
     """A value that is 'almost' v: same number in another type, bool for 0/1, permuted object, ..."""
     k = kind_of(v)
+    if k in ("arr", "obj") and r.random() < 0.35:
+        return twin_leaf(r, v)
     opts = [v]
     if k in ("int", "float"):
         opts += [float(v) if k == "int" and abs(v) < 2**60 else v, int(v) if k == "float" and v == int(v) else v,
